@@ -28,7 +28,7 @@ func init() {
 	register(&c17{base{
 		id:          "C17",
 		level:       lvlExploration,
-		rule:        "each case draws a file set, creates a reference archive (absolute clean paths, 1 goroutine, cwd = an unrelated directory) and then re-creates it in fresh copies of the directory under every variation: repetition (many runs, many recovery blocks), goroutine counts {1,2,3,7,16,64}, permutations of the input list (PAR2), current directory in {set directory, its parent, unrelated}, path spellings {relative, ./x, absolute, absolute with //, /./ and x/../, parent-relative with redundant separators} for the inputs and for the index path, through the library and through the built par binary. The set of written files (names relative to the set directory and bytes) must equal the reference. A key is (format, variation, set shape)",
+		rule:        "each case draws a file set, creates a reference archive (absolute clean paths, 1 goroutine, cwd = an unrelated directory) and then re-creates it in fresh copies of the directory under every variation: repetition (many runs, many recovery blocks), longer files already present under the output names (what an earlier Create with other parameters leaves behind), goroutine counts {1,2,3,7,16,64}, permutations of the input list (PAR2), current directory in {set directory, its parent, unrelated}, path spellings {relative, ./x, absolute, absolute with //, /./ and x/../, parent-relative with redundant separators} for the inputs and for the index path, through the library and through the built par binary. The set of written files (names relative to the set directory and bytes) must equal the reference. A key is (format, variation, set shape)",
 		assumptions: commonAssumptions,
 		opts:        core.WorkerOpts{CrashIsViolation: true, WallSeconds: 2400},
 	}})
@@ -62,6 +62,8 @@ func createdFiles(dir string, inputs map[string]bool) map[string]string {
 }
 
 type c17Variant struct {
+	// over: longer files already exist under the names Create will write
+	over  bool
 	name  string
 	cwd   string // "set" | "parent" | "other"
 	spell string // how to spell paths
@@ -143,6 +145,7 @@ func (c *c17) Run(cs core.Case) core.Result {
 	ext := map[string]string{"par2": ".par2", "par1": ".par"}[p.Fmt]
 	parExe := os.Getenv("VW_PAR_EXE")
 
+	var refFiles map[string]string
 	run := func(tag string, v c17Variant) map[string]string {
 		top := filepath.Join(root, tag)
 		setDir := filepath.Join(top, "the set")
@@ -153,6 +156,21 @@ func (c *c17) Run(cs core.Case) core.Result {
 		os.MkdirAll(filepath.Join(setDir, "zz"), 0755)
 		os.MkdirAll(filepath.Join(setDir, "qq"), 0755)
 		os.MkdirAll(filepath.Join(top, "qq"), 0755)
+		if v.over {
+			// what an earlier Create with other parameters would have left behind:
+			// longer files under the same names (and one shorter)
+			k := 0
+			for name, sig := range refFiles {
+				var n int
+				fmt.Sscanf(sig[strings.LastIndex(sig, ":")+1:], "%d", &n)
+				junk := scen.Garbage(rng, n+1+rng.Intn(4000))
+				if k%4 == 3 {
+					junk = junk[:n/2]
+				}
+				k++
+				os.WriteFile(filepath.Join(setDir, name), junk, 0644)
+			}
+		}
 		cwdPath := map[string]string{"set": setDir, "parent": top, "other": other}[v.cwd]
 		order := make([]int, len(set.Files))
 		for i := range order {
@@ -221,12 +239,18 @@ func (c *c17) Run(cs core.Case) core.Result {
 		r.Violate("create-wrote-too-little", "reference Create wrote %d files", len(ref))
 		return r.Done()
 	}
+	refFiles = ref
 	var variants []c17Variant
 	for i := 0; i < 10; i++ {
 		variants = append(variants, c17Variant{name: fmt.Sprintf("repeat-%d", i), cwd: "other", spell: "abs", g: 1})
 	}
 	for _, g := range []int{2, 3, 7, 16, 64} {
 		variants = append(variants, c17Variant{name: fmt.Sprintf("g=%d", g), cwd: "other", spell: "abs", g: g})
+	}
+	variants = append(variants, c17Variant{name: "over-existing-longer-files", cwd: "other", spell: "abs", g: 1, over: true},
+		c17Variant{name: "over-existing-longer-files,cwd=set", cwd: "set", spell: "rel", g: 3, over: true})
+	if parExe != "" {
+		variants = append(variants, c17Variant{name: "cli,over-existing-longer-files", cwd: "parent", spell: "rel", g: 2, over: true, cli: true})
 	}
 	if p.Fmt == "par2" {
 		for i := 0; i < 3; i++ {
